@@ -148,7 +148,7 @@ stand_in(("C13", "C11"), "path_algebra", "raw_parts / name / suffix / '/' / join
 stand_in(("C06", "C05"), "decode", "decoded accessors == reference UTF-8 percent-decoding; supplied decoded values read back",
          "yarl._quoting_py:_Unquoter.__call__",
          "all strings of length <= 5 (quick) / 6 (thorough) over {%, 4, 1, C, 3, A, 9, +, a, /, e-acute} per component, "
-         "plus escape runs of every 1-4 byte UTF-8 shape incl. overlong, truncated and surrogate encodings")
+         "plus escape runs of every 1-4 byte UTF-8 shape incl. overlong, truncated and surrogate encodings", primary=False)
 stand_in("C18", "human_repr", "URL(u.human_repr()) == u and printable text is shown decoded",
          "yarl._url:URL.human_repr",
          "URLs built from decoded components over texts of <= 2 characters from the reserved delimiters, '%', space, "
